@@ -181,6 +181,7 @@ class Rec:
         c['d'] = self.now() - c['t']
         c['o'] = self.outcome
         c['touch'] = self.touches()
+        c.setdefault('k', [])        # entries the call itself took out of its module's writeDict (write functions only)
         c['x'] = self.pending_ext
         if not c['x'] and not self.flag0 and self.event is not None and self.event.is_set():
             # the trigger event was set from inside the call (e.g. writeInitParams writing the configured pollinterval
@@ -243,6 +244,7 @@ def _script_next(rec, key, script):
 def build_classes(rec, spec_mods, T):
     """one generated class per module spec"""
     from frappy.core import Module, Readable, Parameter, FloatRange, nopoll, ReadHandler, CommonReadHandler
+    from frappy.rwhandler import CommonWriteHandler
     from frappy.io import IOBase, HasIO
 
     classes = []
@@ -378,7 +380,37 @@ def build_classes(rec, spec_mods, T):
             # common read handler, with or without nopoll) may have a start value and a write function
             if p.get('w') and p['name'] not in ('value', 'status'):
                 ns[p['name']] = Parameter('generated, written at start', FloatRange(), default=0, readonly=False)
-                ns['write_' + p['name']] = make_write(p['name'], p['w'][0], p['w'][1])
+                if p.get('wg') is None:
+                    ns['write_' + p['name']] = make_write(p['name'], p['w'][0], p['w'][1])
+        # start values written through a common write handler: one function for the whole group; when it fetches the
+        # values of the other members (`values.as_tuple(...)`) these are taken out of writeDict by that very call
+        wgroups = {}
+        for p in spec['params']:
+            if p.get('w') and p.get('wg') is not None and p['name'] not in ('value', 'status'):
+                wgroups.setdefault(p['wg'], []).append(p)
+        for g, members in wgroups.items():
+            wkeys = tuple(p['name'] for p in members)
+            wscripts = {p['name']: p['w'] for p in members}
+            fetch = members[0].get('wfetch', 'all')
+
+            def cwf(self, values, _keys=wkeys, _sc=wscripts, _fetch=fetch):
+                own = next(iter(values))          # the member being written
+                d, o = _sc[own]
+                rec.depth += 1
+                try:
+                    rec.handoff()
+                    if _fetch == 'all':
+                        values.as_tuple(*_keys)
+                    if d:
+                        T.sleep(d / TICKS)
+                    _raise(o)
+                    for kname in list(values):
+                        setattr(self, kname, values[kname])
+                finally:
+                    rec.depth -= 1
+            cwf.__name__ = 'write_wgroup%d' % g
+            cwf.__qualname__ = 'Gen%d.write_wgroup%d' % (mi, g)
+            ns['write_wgroup%d' % g] = CommonWriteHandler(wkeys)(cwf)
         if not spec.get('enabled', True):
             ns['enablePoll'] = False
 
@@ -460,7 +492,7 @@ def _wrap_read(rec, orig, i, pid):
     return rw
 
 
-def _wrap_write(rec, orig, i, pid):
+def _wrap_write(rec, orig, i, pid, mobj, names):
     import functools
 
     @functools.wraps(orig)
@@ -468,6 +500,7 @@ def _wrap_write(rec, orig, i, pid):
         if rec.poller is None or not rec.is_poller() or rec.depth > 0 or rec.cur is not None:
             return orig(*args, **kwds)
         rec.begin(i, ['w', pid])                # `write_<p>(value)` called by the poll thread's own code (writeInitParams)
+        before = list(mobj.writeDict)           # (the entry being written has been taken out by writeInitParams already)
         try:
             return orig(*args, **kwds)
         except BaseException as e:
@@ -476,6 +509,9 @@ def _wrap_write(rec, orig, i, pid):
             raise
         finally:
             if rec.cur is not None:
+                # what the write function itself took out of writeDict (a common write handler fetching the other
+                # members of its group): environment for the model
+                rec.cur['k'] = [names.index(n) for n in before if n not in mobj.writeDict and n in names]
                 rec.end()
     return ww
 
@@ -633,7 +669,7 @@ def impl_run(case):
                     mobj.__dict__['read_' + n] = _wrap_read(rec, orig_r, i, pid)
                 orig_w = getattr(mobj, 'write_' + n, None)
                 if orig_w is not None:
-                    mobj.__dict__['write_' + n] = _wrap_write(rec, orig_w, i, pid)
+                    mobj.__dict__['write_' + n] = _wrap_write(rec, orig_w, i, pid, mobj, list(mobj.parameters))
 
         ev = owner.triggerPoll
         rec.event = ev
@@ -869,7 +905,7 @@ def model_request(obs):
     return {'p': 'C13', 'k': 'run', 'clock': obs['clock0'],
             'mods': obs['model_mods'], 'adv': obs['advs'],
             'calls': [{'d': c['d'], 'o': MODEL_OUTCOME[c['o']] if c['o'] in MODEL_OUTCOME else c['o'],
-                       't': c['touch'], 'x': c['x']} for c in obs['calls']],
+                       't': c['touch'], 'x': c['x'], 'k': c.get('k', [])} for c in obs['calls']],
             'waits': obs['waits'], 'gaps': obs['gaps']}
 
 
@@ -956,6 +992,13 @@ def gen_case(rng, big, T):
             # a start value (configured) and a write function for it: any kind of declaration, polled or not
             if p['name'] not in ('value', 'status') and rng.random() < 0.3:
                 p['w'] = [rng.choice([0, 0, 16, 256]), rng.choice(['ok', 'ok', 'ok'] + OUTCOMES[1:])]
+        wr = [p for p in params if p.get('w')]
+        if len(wr) >= 2 and rng.random() < 0.4:
+            # some of the start values go through one common write handler
+            fetch = rng.choice(['all', 'all', 'own'])
+            for p in rng.sample(wr, rng.choice([2, 2, 3]) if len(wr) >= 3 else 2):
+                p['wg'] = 1
+                p['wfetch'] = fetch
         readable_names = [p['name'] for p in params if p['kind'] in ('read', 'nopoll', 'handler')]
         spec = {'base': base, 'has_io': with_io,
                 'pollinterval': rng.choice(POLL_IV), 'slow': rng.choice(SLOW_IV), 'params': params,
@@ -1102,8 +1145,9 @@ def decl_catalogue():
     # and once more with the round broken off by a communication failure in the first module behind the io module, so that
     # the start values of the others are written by the `writeInitParams` calls behind the round
     import copy
-    for first_init, outcomes in (([[0, 'ok']], ['ok']), ([[4, 'comm']], ['ok']),
-                                 ([[0, 'ok']], ['ok', 'secop', 'zd', 'comm', 'silent', 'key'])):
+    for first_init, outcomes, wgroups in (([[0, 'ok']], ['ok'], False), ([[4, 'comm']], ['ok'], False),
+                                          ([[0, 'ok']], ['ok', 'secop', 'zd', 'comm', 'silent', 'key'], False),
+                                          ([[4, 'comm']], ['ok', 'ok', 'zd'], True)):
         mods = copy.deepcopy([io, mod('handler'), mod('common'), plain])
         only_written = copy.deepcopy(plain)
         only_written['enabled'] = False
@@ -1111,6 +1155,11 @@ def decl_catalogue():
         for k, m in enumerate(mods[1:]):
             for j, p in enumerate(m['params']):
                 p['w'] = [4, outcomes[(j + k) % len(outcomes)]]
+                if wgroups and j < 3:
+                    # the first three start values of every module through one common write handler; the handler
+                    # fetches the other members (taking them out of writeDict) in every second module
+                    p['wg'] = 1
+                    p['wfetch'] = 'all' if k % 2 == 0 else 'own'
         mods[1]['init'] = first_init
         cases.append({'mods': mods, 'actions': [], 'wactions': [], 'T': 30 * TICKS, 'start': 1000})
     return cases
@@ -1207,7 +1256,18 @@ def classify_violation(obs, judge):
                  else {'i': 'initialReads', 'd': 'doPoll'}.get(last['f'], 'read'))
         return f'C13:thread-died:{where}'
     if not judge['nopoll']:
-        return 'C13:nopoll-read'
+        # which kind of declaration the offending read function has (for the signature only): one with an explicit
+        # nopoll mark if there is one among the reported calls, else the first reported call
+        kinds = []
+        for e in judge.get('bad_nopoll', []):
+            m, f = e[1], e[2]
+            if isinstance(f, int) and m < len(obs['model_mods']) and f < len(obs['model_mods'][m]['decls']):
+                d = obs['model_mods'][m]['decls'][f]
+                kinds.append(d[0] + ('.nopoll' if d[1] or d[2] else ''))
+            else:
+                kinds.append('doPoll' if f == 'd' else 'other')
+        marked = [k for k in kinds if k.endswith('.nopoll')]
+        return 'C13:nopoll-read:' + (marked[0] if marked else kinds[0] if kinds else 'unknown')
     if not judge['main_gap']:
         return 'C13:main-gap'
     return 'C13:slow-refresh'
@@ -1356,6 +1416,8 @@ def run(ctx):
         if any(c['d'] > 0 and obs['started'] is not None and c['t'] >= obs['started'] for c in wcalls):
             res.count('late-write-takes-time')
         res.count('startup-write-calls=%s' % ('0' if not wcalls else '1-3' if len(wcalls) < 4 else '4+'))
+        if any(c.get('k') for c in wcalls):
+            res.count('write-handler-took-entries-out-of-writeDict')
         for k, m in enumerate(case['mods']):
             pos = obs['order'].index('m%d' % k)
             names_k, decls_k = obs['names'][pos], obs['model_mods'][pos]['decls']
